@@ -335,7 +335,8 @@ namespace occa {
       return kernelHash;
     }
 
-    hash_t newKernelHash = kernelHash;
+    // The current state of every recorded dependency, as (path, content hash) pairs
+    std::string dependencyState;
     bool foundDependencyChanges = false;
 
     jsonObject dependencyHashes = dependenciesJson.object();
@@ -346,17 +347,15 @@ namespace occa {
 
       if (io::exists(dependency)) {
         // Check whether the dependency changed
-        // Tie each content hash to its file: plain XOR of the content hashes
-        // cancels for files with equal contents and is blind to swapped contents
         hash_t newDependencyHash = hashFile(dependency);
-        newKernelHash ^= occa::hash(dependency + ":" + newDependencyHash.getFullString());
+        dependencyState += dependency + ":" + newDependencyHash.getFullString() + ";";
 
         if (dependencyHash != newDependencyHash) {
           foundDependencyChanges = true;
         }
       } else {
         // Dependency is missing so something changed
-        newKernelHash ^= occa::hash(dependency + ":missing");
+        dependencyState += dependency + ":missing;";
         foundDependencyChanges = true;
       }
 
@@ -364,8 +363,14 @@ namespace occa {
     }
 
     if (foundDependencyChanges) {
-      // Recursively check if new kernels had their dependencies changed
-      return applyDependencyHash(newKernelHash);
+      // Recursively check if new kernels had their dependencies changed.
+      // The next key is derived from this key together with the dependency state:
+      // XOR-ing dependency terms into the running hash cancels the terms an earlier
+      // hop already contributed, so two header states could point at each other and
+      // the recursion never ended
+      return applyDependencyHash(
+        occa::hash(kernelHash.getFullString() + "|" + dependencyState)
+      );
     }
     return kernelHash;
   }
